@@ -69,9 +69,33 @@ def twins(rng, n):
     return out
 
 
+def escapes(rng, n):
+    """literals with complete, truncated and damaged numeric escapes, valid and invalid alternating: whatever a
+    scanner keeps between two literals (a scratch buffer, a digit count) is exposed by the next literal"""
+    heads = ['\\x', '\\u', '\\U', '\\']
+    full = {'\\x': ['41', 'e9', '7f'], '\\u': ['00e9', '4e16', 'd7ff'], '\\U': ['0001F600', '00000041'], '\\': ['101', '377', '000']}
+    out = []
+    for _ in range(n):
+        h = rng.choice(heads)
+        d = rng.choice(full[h])
+        kind = rng.choice(['ok', 'ok', 'cut', 'bad', 'eof'])
+        if kind == 'ok': body = h + d
+        elif kind == 'cut': body = h + d[:rng.randrange(1, len(d))]
+        elif kind == 'bad': k = rng.randrange(1, len(d)); body = h + d[:k] + 'g' + d[k + 1:]
+        else: body = None
+        q = rng.choice(['"', "'"])
+        if body is None:
+            out.append(('file', 'package p\nvar s = ' + q + h + d[:rng.randrange(1, len(d))]))
+        else:
+            tail = rng.choice(['', 'BC', ' é']) if q == '"' else ''
+            out.append(('file', 'package p\nvar s = ' + q + body + tail + q + '\n'))
+            out.append(('expr', q + body + tail + q))
+    return out
+
+
 def run(chk):
     rng = random.Random(chk.seed)
-    chk.rule = ('static: /repo/src scanned for shared mutable state.  threads: 16 threads each parse the whole stream (corpus programs, mutants, soup, twin-character inputs) in its own shuffled order in one process; '
+    chk.rule = ('static: /repo/src scanned for shared mutable state.  threads: 16 threads each parse the whole stream (corpus programs, mutants, soup, twin-character inputs, literals with complete / truncated / damaged numeric escapes) in its own shuffled order in one process; '
                 'every per-input result must be the same on all threads, equal to a sequential run and equal to the Lean model.  repeated: the stream parsed twice in one process.  non-trivial: distinct inputs with >= 2 tokens.')
     allowed, rest = static_scan()
     chk.extra['static_scan'] = {'allowed_unsafe': len(allowed), 'forbidden_hits': [f'{a}: {c}' for a, b, c in rest][:10]}
@@ -81,7 +105,7 @@ def run(chk):
         chk.problems.append({'kind': 'translator', 'what': f'shared mutable state / unsafe in {fn}: {ctx}'})
     base = streams.snippet_cases()
     n = 1 if chk.tier == 'quick' else 6
-    cases = streams.dedup(base + streams.mutants(rng, base, n, 3) + streams.soup(rng, 2000 * n, modes=('file', 'expr', 'stmt')) + twins(rng, 60 * n))
+    cases = streams.dedup(base + streams.mutants(rng, base, n, 3) + streams.soup(rng, 2000 * n, modes=('file', 'expr', 'stmt')) + twins(rng, 60 * n) + escapes(rng, 300 * n))
     rng.shuffle(cases)
     lines = [R.case_line(m, s) for m, s in cases]
     seq = R.impl(lines)                           # sequential baseline (sharded over processes)
